@@ -1485,9 +1485,12 @@ class Reduction:
     self.kind, self.x, self.axes, self.keepdims = kind, x, axes, keepdims
     c = cur()
     self.kept = [a for a in range(x.ndim) if a not in axes]
+    fps = getattr(OPS, "fp_sort", None)
     sort = z3.BoolSort() if kind in ("all", "any") else (
-        z3.IntSort() if x.dtype.kind in ("i", "b") and kind in ("max", "min", "sum", "prod", "count") else z3.RealSort())
+        z3.IntSort() if x.dtype.kind in ("i", "b") and kind in ("max", "min", "sum", "prod", "count") else
+        (fps if fps is not None else z3.RealSort()))
     self.sort = sort
+    self.fp = fps is not None and sort == fps
     self.f = z3.Function(c.fresh_name(f"red_{kind}"), *([z3.IntSort()] * len(self.kept)), sort)
     self.wit = {}
     c.reductions.append(self)
@@ -1502,6 +1505,8 @@ class Reduction:
       self._facts(kidx, term)
     if self.sort == z3.BoolSort():
       return SBool(term)
+    if self.fp:
+      return OPS.wrap(term)
     return SInt(term) if self.sort == z3.IntSort() else SReal(term)
 
   def full_index(self, kidx, jidx):
@@ -1525,13 +1530,16 @@ class Reduction:
     c = cur()
     kind = self.kind
     res = SBool(term) if self.sort == z3.BoolSort() else (SInt(term) if self.sort == z3.IntSort() else SReal(term))
+    if self.fp:
+      res = OPS.wrap(term)
     cands = self._candidates()
     if kind in ("max", "min"):
+      eq = (lambda a, b: a.same_bits(b)) if self.fp else (lambda a, b: a == b)
       # witness
       w = tuple(SInt(c.fresh_int("w")) for _ in self.axes)
       c.index_terms.extend(w)
       xw = self.x.at(self.full_index(kidx, w))
-      c.fact(sym.implies(self._nonempty(), sym.sand(self._in_range(w), res == xw)),
+      c.fact(sym.implies(self._nonempty(), sym.sand(self._in_range(w), eq(res, xw))),
              f"{kind}: attained at a witness index")
       for j in cands:
         xj = self.x.at(self.full_index(kidx, j))
